@@ -223,7 +223,7 @@ PROPS['C12'] = dict(
 )
 
 PROPS['C11'] = dict(
-    id='C11', modules=['CollectionModel.Props.C11'], key=lambda l: (l.get('gen'), (l.get('parse') or {}).get('out'), min(l.get('size', 0), 12), tuple(sorted(set(t.get('tt') for t in l.get('toks', []))))[:9], min(len(l.get('toks', [])), 40) // 4),
+    id='C11', modules=['CollectionModel.Props.C11', 'CollectionModel.Props.C11Complete'], key=lambda l: (l.get('gen'), (l.get('parse') or {}).get('out'), min(l.get('size', 0), 12), tuple(sorted(set(t.get('tt') for t in l.get('toks', []))))[:9], min(len(l.get('toks', [])), 40) // 4),
     nontrivial=lambda l: True, timeout=dict(quick=900, thorough=3000),
     rule="cases = one sentence derived from the grammar of Syntax.cdsn by a recursive generator (inline and multi-line item "
          "lists, the empty forms, every literal alternative incl. boundary literals, all seven contexts, nesting to depth 4, "
@@ -231,7 +231,7 @@ PROPS['C11'] = dict(
          "independently with strconv and the collection classes; the real ParseSource result must equal it; every tenth sentence "
          "is re-parsed 9 times concurrently under GOMAXPROCS 1, 2, 8; plus literals that cannot be represented exactly (must be rejected)",
     exhaustive_subspaces="every literal alternative of the generator's table as a value (inline and multi-line) and as a key; the empty forms for all seven contexts",
-    level_text="Lean 4 theorems: C11_literal_exact / C11_parseIntrinsic_exact (an accepted literal is exactly the standard conversion of the token consumed; a conversion error can only end in a diagnostic, never in a value), C11_deterministic (the outcome is a function of the source: scanner and parser communicate through one single-producer single-consumer FIFO), C11_scan_ordinal / C11_scan_integer / C11_scan_hex (the lexical rules for ALL digit strings), keyword/delimiter tokenisation, and the negative result C11_counterexample_rune_quote. Completeness of the parser for every derivation of the grammar is NOT proved; it is held by the correspondence run: the executable parser model and the real parser agree with the independently computed meaning on every generated derivation.",
+    level_text="Lean 4 theorems: C11_literal_exact / C11_parseIntrinsic_exact (an accepted literal is exactly the standard conversion of the token consumed; a conversion error can only end in a diagnostic, never in a value), C11_deterministic (the outcome is a function of the source: scanner and parser communicate through one single-producer single-consumer FIFO), C11_scan_ordinal / C11_scan_integer / C11_scan_hex (the lexical rules for ALL digit strings), keyword/delimiter tokenisation, and the negative result C11_counterexample_rune_quote. Completeness is PROVED at token level (Props/C11Complete.lean, Lemmas/ParseComplete*.lean): C11_sentence_accepted – for every syntax tree of the rule definitions of Syntax.cdsn (Collection EOL* EOF; Items = Values | Associations, inline, multi-line or empty; Association = Intrinsic ':' Value; Value = Intrinsic | Collection; nested without bound) whose tokens are of the kinds the rules name, whose literals the conversion accepts and whose contexts fit their items, whatever the token positions, the parser model returns exactly the collection the tree denotes (by structural recursion over the tree through all 15 parse methods: cValue, cItems, the four loops, cAssoc). What remains unproved is the lexical level for strings, runes, floats and complex numbers (which character strings scan to which tokens): held by the correspondence run over grammar-directed sentences.",
     level_note="PARTIAL: parser completeness by correspondence only. strconv is the oracle for literal meaning (external). The grammar's undefined ESCAPE token is read as the scanner's escape set.",
 )
 
